@@ -80,6 +80,7 @@ def write_manifest(path):
 KANI_NOTE = 'Kani harnesses run the real frost-core at toy ciphersuites; complete where loop-free over full-domain inputs, otherwise bounded as labelled per harness'
 
 prop('C06',
+     kani=True,
      level_text='For every ciphersuite (abstract field/group), every (n,t), identifier list, key and RNG stream: Verus proves the real text of '
                 'split / generate_secret_shares / generate_secret_polynomial / evaluate_polynomial / evaluate_vss / SecretShare::verify / '
                 'KeyPackage::try_from / reconstruct / validate_num_of_signers against contracts that state the whole result (exact error per refused '
@@ -116,6 +117,7 @@ DKG_ASSUMED = ('Assumed: sum_commitments (iter_mut().enumerate() with `?`; Kani 
                'T7 identifier order, default world for the post_dkg hook (the Taproot suite overrides it: C18).')
 
 prop('C07',
+     kani=True,
      level_text='For every ciphersuite in the default world, every n, t, identifier set and per-participant polynomial: Verus proves the real text of ' + DKG_FUNCS +
                 ' against contracts stating the whole result of each part: part1 = ([fresh key][t-1 draws] polynomial, commitment G*coefficients, proof of knowledge '
                 '(kG, k + a0*c) with c = HDKG(enc(id)||enc(a0 G)||enc(kG))); part2 = f(l) for every sender l in the map and f(own id) kept; part3 = signing share = sum of '
@@ -154,6 +156,43 @@ prop('C09',
      assumptions=['absence of hidden state (no statics / interior mutability / threads in frost-core)',
                   'public-package entry == G*signing share needs equal commitment lengths (premise; enforced by part2 for the set it is given)'],
      design_ref='DESIGN.md section 4 C09')
+prop('C10',
+     level_text='For every ciphersuite (abstract field/group), every (n,t), identifier set, remaining subset, old key material and RNG stream: Verus proves the real text of '
+                'compute_refreshing_shares / refresh_share / refresh_dkg_part1 / refresh_dkg_part2 / refresh_dkg_shares (and of generate_secret_polynomial / generate_secret_shares / '
+                'SecretShare::verify / KeyPackage::try_from / PublicKeyPackage::from_dkg_commitments / evaluate_vss they call) against contracts that state the WHOLE result and the EXACT error of '
+                'every guard in source order.  Dealer: no recorded threshold / fewer than t identifiers (InvalidMinSigners), identifier not in the old public key package (UnknownIdentifier), '
+                'duplicates; else shares of r = [0] ++ (t-1 fresh draws) with the commitment published WITHOUT its identity entry, new public package entry = G*r(i) + old entry, same group key, '
+                'threshold and header, domain = the identifiers given.  refresh_share: identity re-inserted, VSS check, re-completed length == current threshold (InvalidMinSigners), result = '
+                'current package with share r(i)+s_i and verifying share G*(r(i)+s_i).  refresh_dkg_part1: polynomial [0] ++ (t-1 draws), stripped commitment, proof-of-knowledge nonce drawn AFTER '
+                'the coefficients (disjoint stream segments).  refresh_dkg_part2: package count, re-completed length == t for every sender (IncorrectNumberOfCommitments), round-2 share for l = r(l), '
+                'own r(i) kept, commitment handed on stripped again.  refresh_dkg_shares: threshold equality (InvalidMinSigners), package counts and sender sets, first (ascending) sender whose share '
+                'fails VSS against its RE-COMPLETED commitment (InvalidSecretShare), commitment length mismatch, participant unknown to the old public package (UnknownIdentifier); else signing share = '
+                '((sum of received shares) + own share) + old share, verifying share = G*that, public package = old entries + evaluate_vss(column sum of all re-completed commitments), old group key, '
+                'old header, threshold recorded.  Machine-checked theorems over these contracts (lemmas/vprops_refresh.rs): group key / threshold / header unchanged and left-out participants removed '
+                'from the package; for EVERY participant the dealer-refreshed key package has the same identifier, threshold and group key and verifying share == G*new share == its entry in the '
+                'refreshed public package (conclusions re-establish the premises, so repeated refreshes follow by induction); the same for the distributed variant (entry == G*share by linearity of '
+                'evaluate_vss over the column sums, proved here; equal round-one sets give equal public packages); refreshed shares lie on old polynomial + refreshing polynomial(s) with the SAME '
+                'constant term -- in the distributed variant the accepted shares are forced by the VSS check to be the evaluations of the committed zero-constant polynomials -- hence any >= t '
+                'refreshed packages interpolate to the old secret (native Lagrange proof); a threshold change, an unknown participant and a refreshing polynomial with NON-ZERO constant term are rejected with the '
+                'exact error (a share is accepted against a re-completed commitment iff it equals a(i) - a_0); a signer set mixing old and new shares (or containing a removed participant, who only '
+                'has an old share) interpolates to secret + sum_k lambda_k(0)*err_k and recovers the secret iff that Lagrange-weighted sum of refresh values vanishes.',
+     level_note='NOT decided: (1) that the deviation sum_k lambda_k(0)*r(id_k) of a MIXED old/new signer set is non-zero: it is a non-trivial linear form in the t-1 fresh random coefficients of the '
+                'refreshing polynomial, zero with probability 1/q over the draws -- probabilistic, outside the logic; the theorem pins the exact deviation and the iff.  (2) "can sign"/"fails" at the '
+                'level of signatures: decided here as "the Lagrange-weighted shares add up to the group secret / to secret + deviation"; that this makes aggregate accept resp. reject is C01/C04.  '
+                'Premises of the consistency theorems (stated explicitly, not enforced by the code): the current key package is the one the old public package describes; in the distributed variant the '
+                'caller is not among the senders, its own round-2 secret package is consistent, and all commitments have t-1 entries (enforced by refresh_dkg_part2 on the set it sees; '
+                'refresh_dkg_shares itself does not re-check lengths and, unlike dkg::part2/part3, neither function refuses a map that contains the caller\'s own identifier; refresh_dkg_shares takes '
+                'identifier from the round-2 secret package and group key from the old PUBLIC package without comparing them with the old key package -- observations, see report).  refresh_dkg_part2 / '
+                'refresh_dkg_shares need max_signers >= 1 (u16 subtraction) and a non-empty coefficient vector, as dkg::part2/part3 do: preconditions, true for every package part1 produces.  '
+                'Assumed: generate_coefficients (RNG draws; Kani-backed), sum_commitments (Kani-backed), the outlined std idioms of refresh.rs (Vec::into_iter().chain(Vec).collect() = concatenation; '
+                'iter().map().chain(once()).collect() into a BTreeMap; by-value iteration of a BTreeMap yields its pairs in ascending key order -- vstd has no btree_map::IntoIter model; Vec<Scalar>::clone '
+                'returns equal scalars), T7 identifier order.',
+     assumptions=['a mixed old/new signer set misses the secret unless sum_k lambda_k(0)*r(id_k) == 0: probability 1/q over the refresh randomness, not decided',
+                  'signature-level consequence of "shares add up to the secret / to secret + deviation" is C01 / C04, not re-proved here',
+                  'consistency theorems assume consistent inputs (current package described by the old public package; own identifier not among the senders; commitments of equal length)',
+                  'outlined std idioms in refresh.rs: chain+collect = concatenation; map+chain(once)+collect into BTreeMap (later key wins); BTreeMap by-value iteration in ascending key order; Clone of a field scalar is the identity',
+                  'generate_coefficients returns the next `size` draws of Field::random; sum_commitments = column-wise sum (assumed contracts, Kani-backed, bounded)'],
+     design_ref='DESIGN.md section 4 C10')
 prop('C15',
      level_text='For every ciphersuite (abstract field/group, H3 an arbitrary deterministic function), every signing share and every random '
                 'source (ghost byte stream + position): Verus proves the real text of Nonce::new / nonce_generate_from_random_bytes / '
@@ -196,6 +235,206 @@ prop('C19',
                   'std: `?` converts GroupError with the generated From impl; `impl From<T> for T` is the identity (only needed by callers of queue)',
                   'soundness for >= 2 invalid items is probabilistic (Schwartz-Zippel) and not decided'],
      design_ref='DESIGN.md section 4 C19')
+
+SIGN_FUNCS = ('round2::sign / compute_signature_share / SignatureShare::verify / encode_group_commitments / binding_factor_preimages / compute_binding_factor_list / '
+              'derive_interpolating_value / compute_lagrange_coefficient / compute_group_commitment / aggregate / aggregate_custom / detect_cheater / '
+              'verify_signature_share / verify_signature_share_precomputed / VerifyingKey::verify / verify_prehashed / challenge and the default hook bodies')
+SIGN_ASSUMED = ('Assumed: the multiscalar multiplication result inside compute_group_commitment (outlined call, requires equal lengths -- proved; body Kani-backed, bounded), '
+                'BTreeMap::from([(k, v)]) is the one-entry map, the outlined `keys().cloned().collect()` idiom, T7 identifier order, default world (hooks not overridden; the '
+                'Taproot suite is decided in its own unit: C18).')
+prop('C01',
+     kani=True,
+     level_text='For every ciphersuite in the default world (abstract field/group, H1..H5 arbitrary functions), every (n,t), identifier assignment, signer set and message: Verus proves the '
+                'real text of ' + SIGN_FUNCS + ' against contracts that state the WHOLE result: sign == spec_sign (z_i = d_i + e_i*rho_i + lambda_i*s_i*c with rho, lambda, R, c '
+                'computed from the package in ascending identifier order), aggregate_custom satisfies agg_result_is (refusals in guard order; else (R, sum z_i) if it passes RFC 9591 '
+                'verification under the group key; else the cheater report), verify_signature_share == the RFC 9591 5.3 check. Property theorems (lemmas/vprops_sign.rs): for keys on a '
+                'degree t-1 polynomial (what C06/C07 establish) and any >= t signers with honest commitments, every honest share passes the share check and the aggregate verifies, '
+                'so aggregation returns the signature.',
+     level_note=SIGN_ASSUMED + ' Ordinary single-signer verification of the concrete suites (ed25519-dalek verify_strict, BIP-340) is outside the unit: the proof ends at the RFC 9591 '
+                'verification equation h*(z*B - c*A - R) == 0 with c = H2(enc(R)||enc(A)||msg) (VerifyingKey::verify); that the concrete suites implement this equation and the encodings '
+                'is T3/T4. The session must not hit the identity (vk, commitments, R != identity): the contract returns exactly GroupError in those cases.',
+     assumptions=['honest nonces: commitments are G*d, G*e of the nonces used (C15 proves commit() produces such pairs)',
+                  'keys are shares of one polynomial of degree t-1 with verifying shares G*s_i and group key G*s (proved for dealer keys in C06, per-function for DKG in C07)',
+                  'interoperability with external verifiers (dalek / libsecp256k1) is not decided here'],
+     include=['C06', 'C07'],   # "keys from the trusted dealer or from distributed key generation": the key-generation contracts and theorems count for C01
+     design_ref='DESIGN.md section 4 C01')
+prop('C03',
+     kani=True,
+     level_text='Verus proves for all inputs: sign returns exactly Err(IncorrectNumberOfCommitments) when the package lists fewer than key_package.min_signers participants (first guard of '
+                'spec_sign); aggregate/aggregate_custom return exactly Err(IncorrectNumberOfShares) when fewer than public_key_package.min_signers shares are submitted (second guard '
+                'of agg_guard_err, after the size-mismatch guard); reconstruct returns Err(IncorrectNumberOfShares) below the smallest recorded threshold (contract in contracts/keys.vc); the '
+                'sharing polynomial has exactly min_signers coefficients of which all but the constant term are fresh draws (generate_secret_polynomial / generate_coefficients contracts).',
+     level_note='NOT decided: "shares from fewer than t holders never aggregate into a verifying signature" is an unforgeability statement (computational, discrete log) and "interpolating '
+                'fewer than t shares does not yield the secret" is information-theoretic (holds for all but a 1/q fraction of polynomials): outside a program logic. What is machine-checked is '
+                'the algebraic core where stated in lemmas/vprops_sign.rs (two polynomials of degree t-1 with different constant terms agree on any t-1 identifiers) if present, and the refusals above. '
+                + SIGN_ASSUMED,
+     assumptions=['unforgeability below the threshold is a cryptographic assumption, not decided',
+                  'generate_coefficients draws (assumed contract; Kani-backed, bounded)'],
+     design_ref='DESIGN.md section 4 C03')
+prop('C04',
+     level_text='Verus proves for all inputs that aggregate_custom satisfies agg_result_is: a returned signature is exactly (R, sum z_i) AND passes RFC 9591 verification under the group key for '
+                'the package message (ensures released_signatures_verify); if the sum does not verify the result is an error: with detection disabled the verification error (InvalidSignature) '
+                'naming nobody; otherwise InvalidSignatureShare whose culprit list is, in first-cheater mode, exactly [the lowest identifier whose share fails the RFC 9591 5.3 share check] and, in '
+                'all-cheaters mode, exactly the ascending list of all identifiers whose share fails it (detect_cheater loop invariant `culprits` + lemma_culprits_prefix); InvalidSignature if '
+                'nobody fails. Theorems (lemmas/vprops_sign.rs): the share check accepts z iff z equals the honest share for that session, so the named set is exactly the set of participants whose '
+                'share differs from the honest one and an honest participant is never named; shares whose errors cancel give a sum that verifies, which is released (never a wrong accusation).',
+     level_note=SIGN_ASSUMED + ' Error::culprits() (the accessor) is under contract as well (error.rs).',
+     assumptions=['"honest share" is defined relative to verifying shares that are G*s_i and commitments that are G*d_i, G*e_i'],
+     design_ref='DESIGN.md section 4 C04')
+prop('C05',
+     level_text='Verus proves for all inputs: sign returns exactly Err(MissingCommitment) when the signer has no entry in the package and Err(IncorrectCommitment) when the entry differs from the '
+                'commitments stored with the nonces (guards 2 and 3 of spec_sign, before any use of the nonces); a package containing an identity commitment is rejected by sign, aggregate '
+                'and verify_signature_share (exact error GroupError(InvalidIdentityElement)); share verification recomputes rho_i = H1(enc(vk)||H4(msg)||H5(enc(commitment list))||enc(id)), R, '
+                'c = H2(enc(R)||enc(vk)||msg) and lambda_i from the package it is given (contracts state these preimages byte for byte, in ascending identifier order), and accepts z iff '
+                'z*G == D_i + rho_i*E_i + lambda_i*c*Y_i. Theorems: acceptance iff z equals the honest share OF THAT SESSION; the hashed encodings are injective in (group key, message, commitment '
+                'list with identifiers, identifier).',
+     level_note='NOT decided: that a share for session A is rejected in a different session B additionally needs H1/H2/H4/H5 to separate the (provably different) preimages, i.e. collision '
+                'resistance, and that the resulting scalars do not coincide by accident (probability 1/q) -- outside the logic; reduced by the injectivity lemmas to exactly that. ' + SIGN_ASSUMED,
+     assumptions=['collision resistance of H1, H2, H4, H5 (cross-session rejection is decided only up to it)'],
+     design_ref='DESIGN.md section 4 C05')
+prop('C17', units=['frost_rerandomized'],
+     level_text='For every RandomizedCiphersuite in the default world (abstract field/group; hash_randomizer an arbitrary deterministic function that may refuse), every group key, '
+                'key package, public key package, signing package, seed / rng stream and explicit randomizer (zero included): Verus proves the real text of '
+                'frost-rerandomized/src/lib.rs -- RandomizedParams::from_randomizer / regenerate_from_seed_and_commitments / new_from_commitments, '
+                'Randomizer::regenerate_from_seed_and_commitments / new_from_commitments, Randomize for KeyPackage and for PublicKeyPackage, sign, '
+                'sign_with_randomizer_seed, aggregate, aggregate_custom -- against contracts that state the whole result: randomizer == '
+                'hash_randomizer(seed || encode_group_commitment_list(commitments)) (GroupError when a commitment is the identity, SerializationError when the hash refuses); '
+                'parameters == (alpha, alpha*G, Y + alpha*G); the coordinator draws exactly Ns bytes and returns the SAME function of (seed, commitments) a participant '
+                'regenerates; key package -> (s_i + alpha, Y_i + alpha*G, Y + alpha*G, same identifier and threshold); public key package -> every share + alpha*G, key '
+                'Y + alpha*G, same threshold; sign / sign_with_randomizer_seed == frost-core round2::sign (spec_sign) on the randomized key package; aggregate / '
+                'aggregate_custom == frost-core aggregate / aggregate_custom (agg_result_is: refusals, released signature verifies, culprit list) on the randomized '
+                'public key package, and a released signature verifies under Y + alpha*G.  Machine-checked theorems (lemmas/vprops_rerand.rs): regenerated parameters '
+                'equal the coordinator\'s for every stream and commitment set; the randomized shares lie on f + alpha with group key (f + alpha)(0)*G, participant and '
+                'coordinator agree on every shifted share; Y + alpha*G != Y iff alpha != 0; with one challenge c != 0 and alpha != 0 no (R, z) satisfies the verification '
+                'equation under both keys; thresholds are enforced unchanged (sign refuses < t commitments, aggregate refuses < t shares); an honest randomized share '
+                'passes the coordinator\'s check against the shifted verifying share, and the culprits are exactly the frost-core culprits on the shifted keys; the '
+                'preimage seed || enc(list) is injective in (seed, signer set, every commitment) for seeds of one length, so equal randomizers from different inputs are a '
+                'collision of hash_randomizer.',
+     level_note='Scope: decided for the five default-world suites (ed25519, ed448, p256, ristretto255, secp256k1): the frost-core contracts this unit imports (round2::sign, '
+                'aggregate, aggregate_custom, encode_group_commitments, constructors) are proved in unit frost_core under default_world::<C>() (lemmas/vworld.rs: the suite does '
+                'not override the optional Ciphersuite hooks).  The Taproot suite overrides those hooks and also implements RandomizedCiphersuite: Taproot + rerandomization is '
+                'NOT covered by this proof.  NOT decided: "changing the seed or the commitment set changes the randomizer" and "the signature does not verify under the original '
+                'key" with each key\'s own challenge are statements about hash_randomizer / H2 separating inputs (collision freeness); they are reduced by machine-checked lemmas '
+                'to exactly those hash statements (equal randomizers from different equal-length inputs = a hash_randomizer collision; validity under both keys forces '
+                'h*(c\'*(Y + alpha*G)) == h*(c*Y) for the two H2 outputs c\', c), not proved.  The preimage layout is NOT injective across seeds of different lengths (a longer seed can '
+                'absorb whole encoded items); new_from_commitments always draws Ns bytes, regenerate accepts any length.  "signing and aggregation succeed for any valid signer '
+                'set" is decided as: the randomized key set is a consistent key set for f + alpha (so the frost-core correctness statement C01 applies verbatim) and every honest '
+                'randomized share passes its check; the end-to-end composition lives with C01.  Not covered: the deprecated, cfg(feature = "serialization") functions '
+                'Randomizer::new / from_randomizer_and_signing_package / RandomizedParams::new (SigningPackage-based derivation through the serde codec; dropped by rule E1), '
+                'Randomizer::serialize / deserialize.  Assumed: the outlined std idiom [a, b].concat() == a ++ b (operand holes: which operands, in which order, is decided), '
+                'map+collect into a BTreeMap (vstdx helper), T9 ghost-stream model of fill_bytes, vstd specs of vec![0; n] and BTreeMap::clone / iter.',
+     trusted_base=['hash_randomizer is a deterministic function of its input bytes (uninterpreted spec_hash_randomizer; no injectivity or range property is assumed)',
+                   'frost-core contracts used as assumptions here and proved in unit frost_core (default world): round2::sign, aggregate, aggregate_custom, '
+                   'round1::encode_group_commitments, KeyPackage::new, PublicKeyPackage::new_internal, VerifyingShare::new/to_element, SigningShare::new/to_scalar, VerifyingKey::new/to_element',
+                   'extraction of frost-rerandomized/src/lib.rs: path rewrites frost_core:: -> crate::, alloc:: -> std::, `pub use frost_core;` removed; cfg(feature)/cfg(test) items dropped (units/frost_rerandomized.py)',
+                   'outlined std idiom `[a, b].concat()` on byte slices equals concatenation in order (assumed, operand holes)'],
+     assumptions=['default world: the ciphersuite does not override the optional frost-core hooks (excludes frost-secp256k1-tr: Taproot + rerandomization is not covered)',
+                  'T5 hash_randomizer / H2 are deterministic functions of their input; collision freeness is NOT assumed, so "different inputs give different randomizers" and '
+                  '"not valid under the original key" are reduced to hash statements, not decided',
+                  'T4 scalar/element codecs are canonical and of fixed length (used only by the preimage-injectivity lemmas)',
+                  'T9 ghost-stream model of the coordinator\'s rng (fill_bytes writes stream[pos..pos+len))',
+                  'end-to-end "any valid signer set produces a verifying signature" rests on the frost-core correctness statement (C01) applied to the key set for f + alpha'],
+     design_ref='DESIGN.md section 4 C17')
+
+prop('C14',
+     kani=True,
+     all_functions=True, units=['frost_core', 'frost_rerandomized'],
+     level_text='Verus proves every function of the frost_core unit that is emitted in verified mode (all protocol steps that consume material from other parties: sign, aggregate, '
+                'aggregate_custom, verify_signature_share, detect_cheater, SecretShare::verify, KeyPackage::try_from, reconstruct, dkg part1/part2/part3, refresh_share, '
+                'compute_refreshing_shares, repair parts 1-3, batch verification, and the byte-level decoders Signature::default_deserialize, SerializableScalar/Element::deserialize, '
+                'VerifiableSecretSharingCommitment::deserialize framing, Header checks; the frost-rerandomized entry points in their unit) free of every panic the language can raise in them: '
+                'arithmetic overflow/underflow, division by zero, slice/Vec index out of bounds, unwrap()/expect() on None/Err, explicit panics and unreachable code -- for ALL inputs, '
+                'because the only preconditions of the entry points are on the caller\'s OWN secret state (dkg part2/part3: max_signers >= 1 and a non-empty coefficient vector, as '
+                'produced by part1), exactly the proviso of the property. Each call site is checked against the callee\'s precondition, so the internal helpers with preconditions '
+                '(evaluate_polynomial / from_coefficients: non-empty coefficients; compute_last_random_value: lengths; detect_cheater: identifiers known) are only reached with them established.',
+     level_note='Outside the Verus unit (not proved panic-free here): the serde/postcard layer of serialize()/deserialize() for whole packages (feature-gated code is dropped by rule E1; '
+                'Kani harnesses over toy suites, bounded, where listed), the ciphersuite crates (curve arithmetic, hash-to-field), frost-core/src/scalar_mul.rs (Kani-backed, bounded), '
+                'and every function listed as assumed in the evidence. Memory exhaustion, stack overflow and non-termination are not panics in this sense and not covered (loops have '
+                'decreases clauses except the rejection-sampling loop random_nonzero, T11).',
+     assumptions=['functions emitted in assumed mode (listed under trusted_base in the evidence) are not proved panic-free here',
+                  'vstd preconditions model the panics of the std functions used (unwrap, expect, indexing, slicing, copy_from_slice, chunks_exact)',
+                  'the ciphersuite trait methods (Field/Group/hash functions) do not panic: T3'],
+     design_ref='DESIGN.md section 4 C14')
+
+prop('C12',
+     kani=True,
+     rt_always=True, rt_budget=12,
+     rt_what='codec sweep on the six real suites: for valid scalar/element/composite encodings every value at bytes 0,1,n/2,n-2,n-1, every single-bit flip, random/0xff/zero strings, wrong '
+             'lengths, special points (identity, small/mixed order, SEC1 tags), out-of-range scalars, wrong header version / ciphersuite id; oracle: decode Ok ==> re-encode == input',
+     level_text='Verus proves, for an abstract ciphersuite and ALL values / ALL byte strings, the real text of the fixed-size codecs of frost-core (serialize/deserialize of '
+                'SerializableScalar, SerializableElement, Identifier, SigningKey, SigningShare, VerifyingShare, VerifyingKey, CoefficientCommitment, NonceCommitment, Nonce, SignatureShare, '
+                'Delta, Sigma, BindingFactor, Signature::default_(de)serialize and the (de)serialize_signature hooks, VerifiableSecretSharingCommitment::(de)serialize(_whole)) against '
+                'contracts that fix `res is Ok <==> dec_X(bytes) is Some` with the exact error per refusal (wrong length before the suite is called, zero identifier / zero signing key, '
+                'identity element, malformed primitive) and `serialize(x) == enc_X(x)`; theorems (lemmas/vprops_codec.rs): dec(enc(x)) == x for every valid x, dec(b) == x ==> enc(x) == b '
+                '(no two byte strings denote the same value) for every framing, given the same two facts for the suite\'s primitive scalar/element codec (T4); executable compositions rt_* / '
+                'canon_* verify deserialize(&serialize(x)) == Ok(x) from the contracts alone.',
+     level_note='T4 (canonicity of each suite\'s PRIMITIVE scalar/element codec: frost-*/src/lib.rs Field::deserialize / Group::deserialize over the curve crates) cannot be brought within '
+                'the verifier\'s reach (external curve arithmetic). It is VALIDATED ON EVERY RUN by a sampled concrete sweep over the six real suites (rt/, labelled sampled, never counted as '
+                'proved). That sweep found two genuine defects (SEC1 compact tag 0x05 accepted by the P-256/secp256k1 suites; non-canonical Ed448 scalars), both repaired in /repo '
+                '(known_findings.txt: fixed) and reported again if they return. The serde/postcard encodings of whole packages and the JSON form are feature-gated code outside the Verus unit: '
+                'covered only by that concrete sweep (round trips, header version / ciphersuite id rejection) and by bounded Kani harnesses on toy suites where listed.',
+     assumptions=['T4: primitive scalar/element codecs of the six suites are canonical and reject identity / out-of-range / non-prime-order inputs (sampled validation on every run, not a proof)',
+                  'serde + postcard + serde_json derive output for whole packages is not verified (sampled round trips only)'],
+     design_ref='DESIGN.md section 4 C12')
+prop('C02',
+     kani=True,
+     include=['C15'],
+     level_text='The contracts of the signing path are written from RFC 9591 (sections 4.1-4.6, 5.1-5.3) and fix every intermediate value byte for byte / scalar for scalar, for ALL inputs: '
+                'nonce = H3(random_bytes || SerializeScalar(share)) (C15 contracts); commitments = G*nonce; encode_group_commitment_list = concatenation of enc(id)||enc(D)||enc(E) in '
+                'ascending identifier order; binding factor preimage = enc(vk)||H4(msg)||H5(encoded list)||enc(id) and rho_i = H1 of it; group commitment = sum D_i + sum rho_i*E_i; '
+                'challenge = H2(enc(R)||enc(vk)||msg); lambda_i = the Lagrange coefficient at 0 over the package\'s identifiers; z_i = d_i + e_i*rho_i + lambda_i*s_i*c; signature bytes = '
+                'enc(R)||enc(z). Verus proves the real text of those functions against them. The single-signer entry point (SigningKey::sign -> single_sign hook -> default_sign) returns '
+                '(kG, k + c*s) and thm_single_sign_verifies shows it passes RFC 9591 verification under G*s.',
+     level_note='H1..H5 and the scalar/element encodings are the suites\' (T4/T5: abstract functions here); that they are the RFC\'s hash-to-field constructions and encodings, and the BIP-340 '
+                'variants for Taproot (C18 unit), is not decided by this check -- the repo\'s RFC test vectors exercise them. Identifier::try_from(u16) == n*1 is an assumed contract '
+                '(Kani-backed on toy fields). "An independent implementation computes the same bytes" is decided as "equals the RFC formulas written as spec functions".',
+     assumptions=['T5: H1..H5 of each suite are the RFC 9591 / BIP-340 hash functions (abstract functions in the proof)',
+                  'T4: element/scalar encodings of each suite are the RFC encodings',
+                  'Identifier::try_from(u16) (assumed contract)'],
+     design_ref='DESIGN.md section 4 C02')
+prop('C16',
+     kani=True,
+     level_text='The random source is modelled as a ghost byte stream with a position (T9); Field::random(stream, pos) is an abstract function of the bytes it consumes and consumes at least one. '
+                'Verus proves the real text of generate_secret_polynomial / generate_secret_shares / split / generate_with_dealer, SigningKey::new / random_nonzero (rejection loop, partial '
+                'correctness), dkg part1 / compute_proof_of_knowledge, repair_share_part1, compute_refreshing_shares, batch Verifier::verify, the nonce functions (C15), the generate_nonce and '
+                'single_sign hooks and SigningKey::sign against contracts that state (a) the WHOLE output as a function of (stream, entry position, other arguments) -- hence bit-for-bit '
+                'reproducibility with the same source output; (b) the exit position; (c) which draw feeds which value: key = first non-zero draw, coefficient j = draw j after it, proof nonce '
+                '= first non-zero draw after the coefficients, repair deltas = |H|-1 consecutive draws, one blinder per batch item, 32+32 bytes per nonce pair. Lemmas (lemmas/vspec_nonce.rs): '
+                'draws are read at pairwise different, increasing positions (no draw is used twice within a call).',
+     level_note='NOT decided: "with a different source output every one of those values changes" and "no two of them coincide" are statements about Field::random / H3 being injective on what '
+                'they read (collision-freeness), reduced by the lemmas to distinct stream positions. generate_coefficients (closure over &mut rng inside repeat_with) is an ASSUMED contract '
+                '(Kani-backed, bounded size) -- a change there is not seen by the Verus part. The randomizer seed (frost-rerandomized) is decided in C17\'s unit.',
+     assumptions=['T9 ghost-stream model of CryptoRng', 'generate_coefficients == the next `size` Field::random draws (assumed; Kani bounded)',
+                  'distinct stream positions give distinct values only up to collisions of Field::random / H3'],
+     design_ref='DESIGN.md section 4 C16')
+
+prop('C20',
+     category='model_checking', units=[], kani=True, kani_required=True,
+     technique='bounded/complete model checking (Kani/CBMC) of the real zeroize / drop / Debug code of frost-core at toy ciphersuites; no deductive contract can express "no copy is left in the '
+               'storage it occupied" (Verus erases Drop and has no memory model for deallocated storage)',
+     level_text='Kani harnesses over the REAL frost-core code monomorphised at toy ciphersuites: for every secret-bearing type (SigningKey, SigningShare, Nonce, SecretShare, KeyPackage, '
+                'SigningNonces, dkg round1/round2 SecretPackage, dkg round2 Package) zeroize() leaves every secret scalar equal to zero and drop_in_place leaves zeros in the slot the value '
+                'occupied (inline storage; ManuallyDrop/forgotten negative controls must FAIL), for ALL values of the toy scalar type; the manual Debug impls are checked not to format the secret. '
+                'Complete harnesses (no loops / width-bounded) cover the full toy domain; harnesses with Vec fields are bounded to the stated lengths.',
+     level_note='This is model checking of a monomorphic instance, not a proof for all ciphersuites: the zeroize code is generic and does not branch on the suite, but that is an argument, not a '
+                'theorem. Heap buffers freed by Vec (coefficients of dkg::round1::SecretPackage) are checked through the zeroize-before-free glue running, not by inspecting freed memory (CBMC has no '
+                'model of freed storage); the concrete replay search (rt/ C20, sampled) inspects the real allocator blocks. Copies made by the compiler (moves, spills) are outside any source-level check.',
+     assumptions=['toy ciphersuite stands for all suites (the code under check is generic and suite-independent)', 'zeroize::optimization_barrier stubbed (no semantic effect)',
+                  'compiler-introduced copies of Copy scalars (moves, register spills) are not visible at source level'],
+     design_ref='DESIGN.md section 4 C20')
+prop('C13',
+     kani=True, rt_always=True, rt_budget=15,
+     rt_what='persist-and-resume on the six real suites: at every round boundary (after dkg part1 / part2, refresh part1 / part2, commit, key generation) the secret state is serialized, '
+             'deserialized and used for the remaining steps; oracle: byte-identical later outputs and no refusal',
+     level_text='Two halves. (1) Every step after a round boundary is a FUNCTION of the values it is given: Verus proves dkg part2 / part3, the refresh steps, round2::sign and aggregate against contracts '
+                'of the form `result == spec(arguments)` (or a relation fixing every field), and the library keeps no state between calls (no statics / interior mutability: scanned), so a '
+                'decoded copy that is equal to the stored value yields exactly the same outputs. (2) decode(encode(x)) == x for the state types (dkg round1/round2 SecretPackage, SigningNonces, '
+                'KeyPackage, PublicKeyPackage): the serde/postcard code is feature-gated and outside the Verus unit; Kani proves serialize(x) == enc(x) and deserialize(enc(x)) == Ok(x) on toy suites '
+                '(complete for KeyPackage, bounded lengths otherwise), and the concrete persist-and-resume run on the six real suites is executed on EVERY check run (sampled).',
+     level_note='Half (2) is bounded/sampled, not proved for all values. The own-state preconditions of part2/part3 (max_signers >= 1, non-empty coefficients) are what a decoded package must still '
+                'satisfy: a corrupted store is outside the property (honestly generated state).',
+     assumptions=['serde + postcard derive output (bounded Kani on toy suites + sampled concrete runs)', 'PartialEq on the state types is structural equality (E2)'],
+     design_ref='DESIGN.md section 4 C13')
 
 prop('C18', units=['frost_secp256k1_tr'],
      level_text='Unit frost_secp256k1_tr = the frost-core modules (verified WITHOUT the default-world axiom) + frost-secp256k1-tr/src/lib.rs extracted mechanically, against '
